@@ -34,7 +34,7 @@ func (c15) Assumptions() []string {
 	return []string{"self-differential: a fresh ValueReader running the same code is the reference", "documents and pool schedules are sampled"}
 }
 func (c15) Required(tier string) []string {
-	return []string{"P-miss", "P-pick", "P-evict", "X-mutate-result", "A-abort", "pool-hit-serves-a-previously-used-reader", "read-after-failed-read", "read-after-depth-limit-exit", "read-after-10x-larger-document", "snapshots-rechecked", "input-in-reused-arena", "top-level-string", "next-message-same-address-same-length-other-content", "thousands-of-never-seen-field-names"}
+	return []string{"P-miss", "P-pick", "P-evict", "X-mutate-result", "A-abort", "pool-hit-serves-a-previously-used-reader", "read-after-failed-read", "read-after-depth-limit-exit", "read-after-10x-larger-document", "snapshots-rechecked", "input-in-reused-arena", "top-level-string", "next-message-same-address-same-length-other-content", "thousands-of-never-seen-field-names", "partial-message-then-retry-at-the-same-address"}
 }
 
 var vrOps = []string{"VR.ReadValue", "VR.ReadObject", "VR.ReadArray"}
@@ -160,6 +160,20 @@ func genVRHistory(r *Rand, sc *Scenario, withMutations bool) {
 		if !faultFree {
 			op.Tape = genPoolTape(r, r.Range(0, 60))
 		}
+		if sc.Docs[op.Doc].Len() > 1 && sc.Docs[op.Doc].Len() < 5000 && r.Chance(1, 12) {
+			// partial message first (fails), then the retry on the completed one at the same address
+			full := sc.Docs[op.Doc].Bytes()
+			k := r.Range(1, len(full)-1)
+			cut := docOf(full[:k], sc.Docs[op.Doc].Class+"-partial")
+			cut.Tail = append([]byte(nil), full[k:]...)
+			sc.Docs = append(sc.Docs, cut)
+			first := op
+			first.Doc = len(sc.Docs) - 1
+			first.B |= 2
+			ops = append(ops, first)
+			op.B |= 2
+			reads++
+		}
 		ops = append(ops, op)
 		reads++
 		if sc.Docs[op.Doc].Len() < 5000 && r.Chance(1, 6) {
@@ -276,8 +290,8 @@ func (c15) Exec(sc *Scenario, st *Stats) *Violation {
 	lastLen := 0
 	maxLen := 0
 	for _, d := range sc.Docs {
-		if d.Len() > maxLen {
-			maxLen = d.Len()
+		if d.Len()+len(d.Tail) > maxLen {
+			maxLen = d.Len() + len(d.Tail)
 		}
 	}
 	arena := make([]byte, maxLen) // a read buffer the caller reuses: same address for every call that asks for it
@@ -303,7 +317,12 @@ func (c15) Exec(sc *Scenario, st *Stats) *Violation {
 			d := sc.Docs[op.Doc]
 			dataA, dataB := d.Bytes(), d.Bytes()
 			if op.B&2 != 0 {
-				dataA = arena[:copy(arena, dataA)]
+				n := copy(arena, dataA)
+				copy(arena[n:], d.Tail)
+				dataA = arena[:n]
+				if strings.HasSuffix(d.Class, "-partial") {
+					st.probe("partial-message-then-retry-at-the-same-address")
+				}
 				st.probe("input-in-reused-arena")
 				if strings.HasSuffix(d.Class, "-successor") {
 					st.probe("next-message-same-address-same-length-other-content")
@@ -429,7 +448,7 @@ func (c03) Assumptions() []string {
 	return []string{"reduced scope: what is decided is independence of the result from pool scheduling and reader reuse, plus agreement with the model on sampled documents; exhaustiveness over byte strings is not claimed", "reference parser cross-checked against encoding/json per document"}
 }
 func (c03) Required(tier string) []string {
-	return []string{"P-miss", "P-pick", "P-evict", "duplicate-key", "escaped-key", "empty-container", "typed-entry-rejects-null", "typed-entry-rejects-other-root", "number-out-of-range-rejected", "depth-10000-accepted", "depth-10001-rejected", "invalid-utf8-kept", "model-vs-encoding-json-tree-checked", "input-in-reused-arena", "next-message-same-address-same-length-other-content", "X-mutate-result"}
+	return []string{"P-miss", "P-pick", "P-evict", "duplicate-key", "escaped-key", "empty-container", "typed-entry-rejects-null", "typed-entry-rejects-other-root", "number-out-of-range-rejected", "depth-10000-accepted", "depth-10001-rejected", "invalid-utf8-kept", "model-vs-encoding-json-tree-checked", "input-in-reused-arena", "next-message-same-address-same-length-other-content", "X-mutate-result", "partial-message-then-retry-at-the-same-address"}
 }
 
 func (c03) Gen(r *Rand, sc *Scenario, tier string) {
@@ -554,8 +573,8 @@ func (c03) Exec(sc *Scenario, st *Stats) *Violation {
 	reads := 0
 	maxLen := 0
 	for _, d := range sc.Docs {
-		if d.Len() > maxLen {
-			maxLen = d.Len()
+		if d.Len()+len(d.Tail) > maxLen {
+			maxLen = d.Len() + len(d.Tail)
 		}
 	}
 	arena := make([]byte, maxLen) // a read buffer the caller reuses: same address for every call that asks for it
@@ -581,8 +600,13 @@ func (c03) Exec(sc *Scenario, st *Stats) *Violation {
 		}
 		d := sc.Docs[op.Doc]
 		data := d.Bytes()
-		if op.B&2 != 0 && len(d.Tail) == 0 {
-			data = arena[:copy(arena, data)]
+		if op.B&2 != 0 {
+			n := copy(arena, data)
+			copy(arena[n:], d.Tail)
+			data = arena[:n]
+			if strings.HasSuffix(d.Class, "-partial") {
+				st.probe("partial-message-then-retry-at-the-same-address")
+			}
 			st.probe("input-in-reused-arena")
 			if strings.HasSuffix(d.Class, "-successor") {
 				st.probe("next-message-same-address-same-length-other-content")
